@@ -610,9 +610,35 @@ pub fn run_coll(c: &CollCase) -> Outcome {
                             obj = o;
                             model = dedup(&ids);
                         }
-                        Err(_) => {
+                        Err(e) => {
                             out.count("c16.decoder_rejected_encoding", 1);
                             applied = false;
+                            // the statement speaks of bytes that repeat an element: if the very same encoding is
+                            // accepted once the repeats are taken out, the repeats are what the decoder refused
+                            let d = dedup(&ids);
+                            if d.len() != ids.len() && !*tagged {
+                                let mut b2 = vec![];
+                                if *indefinite {
+                                    b2.push(0x9f);
+                                } else {
+                                    cbor::head_w(&mut b2, 4, d.len() as u64, if *wide { 2 } else { 0 });
+                                }
+                                let mut seen: Vec<u8> = vec![];
+                                for (pos, id) in ids.iter().enumerate() {
+                                    if seen.contains(id) {
+                                        continue;
+                                    }
+                                    seen.push(*id);
+                                    b2.extend_from_slice(&alt_bytes(&universe[*id as usize].1, *alt, pos));
+                                }
+                                if *indefinite {
+                                    b2.push(0xff);
+                                }
+                                if from_bytes(kind, &b2).is_ok() {
+                                    out.violate("C16.collection", &format!("repeated_element_rejected/{:?}", kind), format!("{:?} op {}: an untagged list that repeats an element does not decode ({}), the same list without the repeats does", kind, i, e));
+                                    break;
+                                }
+                            }
                         }
                     }
                 }
